@@ -58,13 +58,19 @@ func loaderURLProblem(s string) string {
 	return ""
 }
 
+// externalOnly: the documents (identified modulo percent-encoding normalisation) requested besides the root.
 func externalOnly(loads []string, root string) []string {
-	var out []string
+	set := map[string]bool{}
 	for _, u := range loads {
-		if u != root {
-			out = append(out, u)
+		if urlKey(u) != urlKey(root) {
+			set[urlKey(u)] = true
 		}
 	}
+	out := make([]string, 0, len(set))
+	for k := range set {
+		out = append(out, k)
+	}
+	sort.Strings(out)
 	return out
 }
 
@@ -123,6 +129,19 @@ func oracleC11(c c11Case) (*vstat.Failure, bool) {
 	acyclic := gin.Acyclic(elems)
 	var ref c11Run
 	external := false
+	texts := map[string]map[string]bool{} // document -> the URL texts it was requested under, over all spellings
+	defer func() {
+		for doc, ts := range texts {
+			if len(ts) > 1 {
+				var list []string
+				for t := range ts {
+					list = append(list, t)
+				}
+				sort.Strings(list)
+				f.Add("NOT-ONE-CANONICAL-URL", doc, "the same document is requested under %d different URL texts depending on how the root location is spelled: %q", len(list), list)
+			}
+		}
+	}()
 	for i, sp := range c.Spellings {
 		run := c11Expand(c, sp)
 		where := fmt.Sprintf("RelativeBase=%q (canonical %s)", sp, c.Graph.Root)
@@ -134,9 +153,13 @@ func oracleC11(c c11Case) (*vstat.Failure, bool) {
 			if p := loaderURLProblem(u); p != "" {
 				f.Add("NOT-CANONICAL", where, "the loader was asked for %q, which %s", u, p)
 			}
-			if u != c.Graph.Root {
+			if urlKey(u) != urlKey(c.Graph.Root) {
 				external = true
 			}
+			if texts[urlKey(u)] == nil {
+				texts[urlKey(u)] = map[string]bool{}
+			}
+			texts[urlKey(u)][u] = true
 		}
 		if i == 0 {
 			ref = run
@@ -158,7 +181,7 @@ func oracleC11(c c11Case) (*vstat.Failure, bool) {
 			var want []string
 			for u := range gin.ReachableDocs(elems) {
 				if u != c.Graph.Root {
-					want = append(want, u)
+					want = append(want, urlKey(u))
 				}
 			}
 			sort.Strings(want)
@@ -278,7 +301,7 @@ func genC11(t *rapid.T) c11Case {
 	o.Spell = gen.SpellAll &^ (gen.SpellRootRel | gen.SpellMessy) // (root-relative and non-canonical absolute $refs would not survive the textual relocation below)
 	g := gen.Graph(t, o)
 	wd, _ := os.Getwd()
-	kind := gen.Uniform(t, "location", 4)
+	kind := gen.Uniform(t, "location", 5)
 	c := c11Case{}
 	isFile := true
 	switch kind {
@@ -288,6 +311,9 @@ func genC11(t *rapid.T) c11Case {
 		// (the working directory itself varies from case to case: it must be looked up when it is needed)
 		c.Cwd = wd + []string{"", "/c11-a", "/c11-b/deeper"}[gen.Uniform(t, "cwd", 3)]
 		c.Graph = relocate(g, "file://"+c.Cwd+"/w/")
+	case 4: // a directory whose name holds characters that url.URL may or may not escape
+		// (canonical text: the escaped one, as net/url prints it; the literal spelling is one of the equivalent spellings)
+		c.Graph = relocate(g, "file:///data/a%28b%29/it%27s/w/")
 	case 2:
 		c.Graph = relocate(g, "http://r.example/w/")
 		isFile = false
@@ -304,6 +330,10 @@ func genC11(t *rapid.T) c11Case {
 		}
 		for j, m := 0, 1+gen.Uniform(t, "nrewrites", 3); j < m; j++ {
 			loc = rewriteLocation(t, loc, isFile)
+		}
+		if strings.Contains(loc, "%28") && rapid.Bool().Draw(t, "literal") {
+			// the same location with the characters written literally (RFC 3986 6.2.2.2: equivalent)
+			loc = strings.NewReplacer("%28", "(", "%29", ")", "%27", "'").Replace(loc)
 		}
 		c.Spellings = append(c.Spellings, loc)
 	}
